@@ -126,7 +126,7 @@ def r18_1(ctx):
     ai = pm.make_interp(ctx)
     install_select(ai)
     sp = ctx.p.cls(S, 'SocketPort')
-    rc = sp.methods.get('_receive')
+    rc = ctx.p.lookup_method(sp, '_receive')[1]
     if rc is None:
         raise AnalysisError('SocketPort._receive not found')
     ctx.fn(rc)
@@ -232,7 +232,7 @@ def r18_live(ctx):
     ai = pm.make_interp(ctx)
     install_select(ai)
     sp = ctx.p.cls(S, 'SocketPort')
-    rc = sp.methods.get('_receive')
+    rc = ctx.p.lookup_method(sp, '_receive')[1]
     if rc is None:
         raise AnalysisError('SocketPort._receive not found')
     w = ctx.where(rc)
@@ -283,7 +283,7 @@ def r18_autoreset_eof(ctx):
     ai = pm.make_interp(ctx)
     install_select(ai)
     sp = ctx.p.cls(S, 'SocketPort')
-    rc = sp.methods.get('_receive')
+    rc = ctx.p.lookup_method(sp, '_receive')[1]
     if rc is None:
         raise AnalysisError('SocketPort._receive not found')
     w = ctx.where(rc)
@@ -325,7 +325,7 @@ def r18_3(ctx):
     ai = pm.make_interp(ctx)
     install_select(ai)
     sp = ctx.p.cls(S, 'SocketPort')
-    cl = sp.methods.get('_close')
+    cl = ctx.p.lookup_method(sp, '_close')[1]
     ctx.fn(cl)
     holder = {}
 
@@ -346,7 +346,7 @@ def r18_3(ctx):
                     construct=f'{cl.qname}::release')
         wires = [e[1] for e in oc.log if e[0] == 'wire']
         ok = len(wires) == 1 and isinstance(wires[0], AList) and wires[0].items == [0x90, 7, 64]
-        ctx.require(ok, 'R18.1', 'send.whole-message', ctx.where(sp.methods['_send']), f'send writes {wires}',
+        ctx.require(ok, 'R18.1', 'send.whole-message', ctx.where(ctx.p.lookup_method(sp, '_send')[1]), f'send writes {wires}',
                     construct=f'{sp.qname}._send::whole-message')
     for q in ai.inlined:
         ctx.functions.add(q)
@@ -358,7 +358,7 @@ def r18_4(ctx):
     install_select(ai)
     ps = ctx.p.cls(S, 'PortServer')
     # the anchor for reports: the server's own receive hook when it has one, else whatever poll() resolves to
-    rc = ps.methods.get('_receive') or ctx.p.lookup_method(ps, '_receive')[1] or ctx.p.lookup_method(ps, 'poll')[1]
+    rc = ctx.p.lookup_method(ps, '_receive')[1] or ctx.p.lookup_method(ps, 'poll')[1]
     if rc is None:
         raise AnalysisError('PortServer has no receive path')
     ctx.fn(rc)
@@ -426,11 +426,11 @@ def r18_4(ctx):
         pm.call(ai, ctx, server, 'close')
         return server
     outs = ai.explore(thunk_c)
-    oc = c11.one(ctx, 'R18.3', 'PortServer.close', ctx.where(ps.methods['_close']), outs, f'{ps.qname}._close::release')
+    oc = c11.one(ctx, 'R18.3', 'PortServer.close', ctx.where(ctx.p.lookup_method(ps, '_close')[1]), outs, f'{ps.qname}._close::release')
     if oc is not None:
         ok = oc.kind == 'return' and holder['ssock'].state['closed'] == ['server-socket'] and \
             sorted(holder['clients'][0].state['closed']) == ['rfile', 'socket', 'wfile']
-        ctx.require(ok, 'R18.3', 'PortServer.close', ctx.where(ps.methods['_close']),
+        ctx.require(ok, 'R18.3', 'PortServer.close', ctx.where(ctx.p.lookup_method(ps, '_close')[1]),
                     f'closing the server closed {holder["ssock"].state["closed"]} and client {holder["clients"][0].state["closed"]}: {oc}',
                     construct=f'{ps.qname}._close::release')
     # ... whatever the number of connections it holds: none (nobody ever connected), two; and a second close() releases nothing again
@@ -444,11 +444,11 @@ def r18_4(ctx):
             pm.call(ai, ctx, server, 'close')
             return server
         outs = ai.explore(thunk_n)
-        oc = c11.one(ctx, 'R18.3', f'PortServer.close ({label})', ctx.where(ps.methods['_close']), outs, f'{ps.qname}._close::release')
+        oc = c11.one(ctx, 'R18.3', f'PortServer.close ({label})', ctx.where(ctx.p.lookup_method(ps, '_close')[1]), outs, f'{ps.qname}._close::release')
         if oc is not None:
             ok = oc.kind == 'return' and holder['ssock'].state['closed'] == ['server-socket'] and \
                 all(sorted(c.state['closed']) == ['rfile', 'socket', 'wfile'] for c in holder['clients']) and oc.value.attrs.get('closed') is True
-            ctx.require(ok, 'R18.3', f'PortServer.close ({label})', ctx.where(ps.methods['_close']),
+            ctx.require(ok, 'R18.3', f'PortServer.close ({label})', ctx.where(ctx.p.lookup_method(ps, '_close')[1]),
                         f'closing the server twice closed {holder["ssock"].state["closed"]} (the listening socket must be released exactly once) and '
                         f'clients {[c.state["closed"] for c in holder["clients"]]}: {oc}', construct=f'{ps.qname}._close::release')
     for q in ai.inlined:
